@@ -814,6 +814,23 @@ type h5Oracle struct {
 	known  map[string]*h5Claim // content of a dataset as last observed through a full Load, or as the property predicts it
 	failed bool
 	opNo   int
+	muts   []h5Mut // every Create / Write / WriteSlice call seen so far (for the history statistics only)
+}
+
+type h5Mut struct {
+	op   int
+	path string
+}
+
+// otherPathMutSince: a Create / Write / WriteSlice call on ANOTHER path happened after op `from` (the histories of
+// stored_object_persists / write_then_load_across)
+func (o *h5Oracle) otherPathMutSince(from int, p string) bool {
+	for _, m := range o.muts {
+		if m.op > from && m.path != p {
+			return true
+		}
+	}
+	return false
 }
 
 func (o *h5Oracle) fail(scope, what string) {
@@ -874,6 +891,7 @@ func (o *h5Oracle) step(t *tokenReader, res string) {
 		}
 	case "create":
 		p, shape := normPath(t.next()), t.ints()
+		o.muts = append(o.muts, h5Mut{o.opNo, p})
 		k := o.known[p]
 		if k == nil {
 			return
@@ -889,6 +907,7 @@ func (o *h5Oracle) step(t *tokenReader, res string) {
 		o.known[p] = &h5Claim{k.v, "Create on an existing dataset never changes its contents", o.opNo}
 	case "write":
 		p, ai := normPath(t.next()), t.int()
+		o.muts = append(o.muts, h5Mut{o.opNo, p})
 		k := o.known[p]
 		delete(o.known, p)
 		var a *h5Val
@@ -911,7 +930,11 @@ func (o *h5Oracle) step(t *tokenReader, res string) {
 		}
 	case "wslice":
 		p, ai, loc := normPath(t.next()), t.int(), t.ints()
+		o.muts = append(o.muts, h5Mut{o.opNo, p})
 		k := o.known[p]
+		if k != nil && strings.HasPrefix(k.why, "WriteSlice") {
+			o.c.Stats.Count("history:wslice-onto-earlier-wslice")
+		}
 		delete(o.known, p)
 		if ai < 0 || ai >= len(o.arrs) || o.arrs[ai] == nil {
 			return
@@ -968,6 +991,11 @@ func (o *h5Oracle) step(t *tokenReader, res string) {
 			}
 			if k != nil {
 				o.c.Stats.OracleEvals++
+				if o.otherPathMutSince(k.from, p) {
+					o.c.Stats.Count("history:load-checked-across-other-path-mutations")
+				} else {
+					o.c.Stats.Count("history:load-checked-directly")
+				}
 				if !sameInts(k.v.shape, got.shape) || !sameI64(k.v.vals, got.vals) {
 					o.fail(strings.Fields(k.why)[0], fmt.Sprintf("op %d: Load of %s returned shape %v values %v; expected shape %v values %v (%s, op %d)", o.opNo, p, got.shape, got.vals, k.v.shape, k.v.vals, k.why, k.from))
 				}
@@ -1578,6 +1606,42 @@ func (g *h5Gen) randomOp() {
 		g.addArr(len(blk), blk)
 		g.add(fmt.Sprintf("load %s 0", p))
 		g.add(fmt.Sprintf("wslice %s %d %s", p, len(g.arrs)-1, Is(loc)))
+		if r.Chance(0.3) {
+			// history class (writeSlices_last_block_wins / stored_object_persists): 1-3 MORE blocks written to the same dataset
+			// with NO Load in between — blocks inside the dataset, overlapping the earlier ones or not — sometimes with a Write /
+			// Create on another path in between; the one Load at the end must show, element by element, the last block covering it
+			for extra := r.Range(1, 3); extra > 0; extra-- {
+				if r.Chance(0.35) {
+					q := h5Paths[r.Intn(len(h5Paths))]
+					if normPath(q) != normPath(p) && normPath(q) != "" {
+						if _, exists := g.ds[normPath(q)]; !exists && g.creatable(q) && r.Bool() {
+							sh := []int{r.Range(1, 4), r.Range(1, 4)}
+							g.add(fmt.Sprintf("create %s %s", q, Is(sh)))
+							g.ds[normPath(q)] = sh
+						} else {
+							var qs []int
+							if cur, ok := g.ds[normPath(q)]; ok {
+								qs = g.addArr(len(cur), cur)
+							} else {
+								qs = g.addArr(r.Range(1, 3), nil)
+							}
+							g.add(fmt.Sprintf("write %s %d", q, len(g.arrs)-1))
+							if _, ok := g.ds[normPath(q)]; !ok && g.creatable(q) {
+								g.ds[normPath(q)] = qs
+							}
+						}
+					}
+				}
+				b2 := make([]int, len(shape))
+				l2 := make([]int, len(shape))
+				for d := range shape {
+					b2[d] = r.Range(1, shape[d])
+					l2[d] = r.Intn(shape[d] - b2[d] + 1)
+				}
+				g.addArr(len(b2), b2)
+				g.add(fmt.Sprintf("wslice %s %d %s", p, len(g.arrs)-1, Is(l2)))
+			}
+		}
 		g.add(fmt.Sprintf("load %s 0", p))
 		g.hasW = true
 	case x < 74: // load with a selection
